@@ -33,6 +33,38 @@ CHECKS = {
    text="Theorem upperOfMat_reads_upper_only (two P arguments agreeing on the upper triangle are stored identically) + exact differential runs: the four sparse KKT formulations give identical rationals on the same problem/settings (refinement off), and P supplied upper / full / upper+garbage-lower gives the identical complete output in setup() and update() on all five back ends.",
    design_ref="§6 C10", technique="Lean 4 proof (only utri(P) is read) + exact-rational equality across formulations and P storages",
    note="agreement of dense vs sparse 'within tolerance' in floating point is not decided here"),
+ "C02": dict(category="other",
+   text="Global convergence on the well-posed class W is not provable by an invariant (heuristic interior-point method); the full statement is not claimed as a theorem. Decided here by (i) theorem not_solved_partial (the only non-SOLVED exits are MAX_ITER, the two verdicts, NUMERICS) and the mechanism theorems of C13/C12/C15/C04, (ii) sampling the class W generator on all five back ends x preconditioner/refinement settings: any non-SOLVED outcome is reported with the problem as replay, every SOLVED is certified from the user's data.",
+   design_ref="§6 C02", technique="mechanism theorems in Lean 4 + sampled differential runs on the well-posed class (labelled as testing)",
+   note="partial: convergence itself is monitored, not proved"),
+ "C03": dict(category="proof",
+   text="Decision-logic theorems for every numeric back end: an infeasibility verdict is returned only at a loop head where the corresponding rule (counter > min(5,threshold), proximal distance > 1e12, regularised residual within tolerance) holds; SOLVED only when the termination test holds. The rules themselves are tied bit-exactly to real double runs (tie B). Ground truth is decided outside the solver in exact rational arithmetic (simplex cross-checked by Fourier-Motzkin, certificates re-verified) on an integer grid and constructed degenerate / Farkas / recession problems, all five back ends: a verdict contradicting the exact class is a violation.",
+   design_ref="§6 C03", technique="Lean 4 proof of the verdict logic + exact rational ground-truth classification vs. real runs",
+   note="'never INFEASIBLE on a solvable problem' is a claim about a heuristic: monitored on the enumerated classes, not proved; farkas/recession soundness lemmas are standard and re-verified numerically per certificate"),
+ "C06": dict(category="proof",
+   text="Termination is a theorem about the code's loop structure: the main loop and the initial retry loop are Lean functions accepted by the termination checker with the measure (max_iter-iter, refinement not yet on, max_factor_retires-factor_retires) for arbitrary numeric operations (so NaN-poisoned comparisons and adversarial data are covered); iter<=max_iter and 'status in the documented set' are proved. The loop is the one the real solver model uses (tie A) and is replayed bit-exactly on traces of real double runs on adversarial inputs (tie B); every run must return with a documented status.",
+   design_ref="§6 C06", technique="Lean 4 termination proof (well-founded recursion on the real loop) + bit-exact skeleton replay on adversarial double runs",
+   note="partial for the memory clause: out-of-bounds / UB inside Eigen and libstdc++ are outside the model; ASan/UBSan runs (thorough) are supporting evidence only"),
+ "C11": dict(category="other",
+   text="Model-level ledger theorems (update/solve preserve dimensions and stored patterns for any history) + runtime observation: every allocation entry point is interposed and armed only inside update()/solve() of the real solvers (5 back ends x 2 preconditioners), all 512 (argument subset x reuse) updates, sizes to n~400, all exit statuses incl. injected factorisation failures: counters must be 0.",
+   design_ref="§6 C11", technique="Lean 4 shape-ledger theorems + malloc/operator-new interposition on the real solvers",
+   note="heap behaviour of Eigen temporaries is a runtime-library behaviour no model exhibits: observed, not proved (T=double, EIGEN_STACK_ALLOCATION_LIMIT=16MiB)"),
+ "C12": dict(category="proof",
+   text="Theorems for every failure oracle and every numeric trajectory (arbitrary LoopOps): iter<=max_iter, the first failure only enables refinement, regularisation raised at most max_factor_retires consecutive times, NUMERICS only with refinement on and retries exhausted (main loop and initial loop), SOLVED still implies the termination test. Tie B: with the fault-injection hook every failure mask over the first K factorisation calls (K=8 quick, 14 thorough) and random burst/sparse/late patterns are run on real double solvers; the Lean skeleton reproduces every control state bit for bit; finiteness, certificates and '<=3 transient failures still SOLVED' are evaluated on the implementation.",
+   design_ref="§6 C12", technique="Lean 4 proof (state machine, all oracles) + exhaustive fault-mask runs with bit-exact trace replay",
+   note="'transient failures do not prevent convergence' is monitored (numerical behaviour), not proved"),
+ "C15": dict(category="proof",
+   text="Theorems: with InvCoherent (each inverse scaling is the inverse on the active range) every scale_*/unscale_* pair proved so far (primal, dual eq/ineq/lb, slack lb, cost) are mutual inverses; init is coherent. Tie: after setup and after every update of histories over preconditioner_iter in {0,1,2,3,10} x scale_cost x dense/sparse x all transitions between bound patterns (reuse or not), the Lean predicate precondFails checks on the state (compared exactly with the implementation's, incl. the private scaling vectors) that the scaled data equal the user's data transformed by the reported scalings and that every inverse is an inverse on the active indices.",
+   design_ref="§6 C15", technique="Lean 4 proof (scaling algebra) + exact white-box correspondence with a change-of-variables predicate",
+   note="the Ruiz-loop invariant theorem (data = apply S data0 for every iteration count) is carried by the exact correspondence, not yet by a theorem"),
+ "C18": dict(category="other",
+   text="All theorems are parametric in the scalar type. Compilation and execution of the 72 instantiations T in {float,double,long double,cpp_bin_float<100>} x I in {int,long long} x 5 back ends x {Ruiz,identity} is a fact about template instantiation: decided by the build matrix (quick: covering subset with every (T, back end) pair; thorough: all), each solving well-posed problems to SOLVED with a certificate recomputed in exact rationals and higher-precision solutions agreeing with double.",
+   design_ref="§6 C18", technique="scalar-generic Lean theorems + compile-and-run instantiation matrix",
+   note="observation on generated problems n<=20; per-type tolerances chosen in the harness"),
+ "C19": dict(category="other",
+   text="Model: the interface state contains values only; theorem later_calls_independent_of_old_heap (changing caller buffers after a call cannot affect later calls that do not read them). Aliasing is a memory-level behaviour: observed by running every history twice (caller buffers alive vs. checksummed, scribbled and freed after each call) over 9 caller interfaces (C++ dense col/row-major/padded, C++ sparse x 4 modes, C dense, C sparse) and comparing all results bitwise; thorough also under AddressSanitizer.",
+   design_ref="§6 C19", technique="structural Lean theorem + scribble/free differential runs (bitwise)",
+   note="a retained pointer never dereferenced on the explored histories would go unseen"),
  "C16": dict(category="proof",
    text="Static half decided by proof: a translator regenerates, from the current interfaces/c sources and core headers, the tables of every field copied by piqp_update_result / piqp_set_default_settings / piqp_update_settings (dense and sparse branch) and the status enum; 13 Lean theorems (each `by decide` over the complete table) state that every core field is wired to the like-named C field exactly once and that status values agree. A Python recomputation of every obligation supplies the concrete mismatching pair as replay when a theorem fails. The dynamic half (bitwise C-vs-C++ differential) is reported in the evidence when built.",
    design_ref="§6 C16", technique="Lean 4 `decide` over translator-generated complete field tables (+ differential C/C++ runs)",
